@@ -25,7 +25,7 @@ ASSUMPTIONS = ["printed precision: fractional coordinates 4 decimals (compared m
                "Cartesian output is exercised only for cells in the standard orientation (a CIF stores lengths and angles only)"]
 NRUNS = {"quick": 6000, "thorough": 80000}
 RUN_TIMEOUT = 120.0
-MUST_REACH = ["cif_roundtrips", "rewrite_stable_checks", "handmade_texts", "nonp1_rejected", "su_parentheses", "cartesian_files", "ase_agreement_checks", "triclinic_cells"]
+MUST_REACH = ["cif_roundtrips", "rewrite_stable_checks", "handmade_texts", "nonp1_rejected", "su_parentheses", "cartesian_files", "ase_agreement_checks", "triclinic_cells", "faults_fired"]
 
 XL = {"atom": "_atom_site_x_%d", "bond": "_geom_bond_x_%d", "angle": "_geom_angle_x_%d", "dihedral": "_geom_torsion_x_%d"}
 
@@ -51,7 +51,9 @@ def generate(rng, tier):
     standard = cfg["cell_family"] != "tri_rotated"
     case = {"fract": True if not standard else rng.random() < 0.7, "via_save": rng.choice(["path", "file", "save_p1_cif"]),
             "via_load": rng.choice(["path", "file", "load_p1_cif"]),
-            "read_script": rng.choice([None, {"chunk": "random", "seed": rng.getrandbits(16)}, {"chunk": "prime"}])}
+            "read_script": rng.choice([None, {"chunk": "random", "seed": rng.getrandbits(16)}, {"chunk": "prime"}]),
+            "write_fault": rng.choice([{"enospc_after": rng.randint(0, 1500)}, {"eio_after": rng.randint(0, 1500)}]) if rng.random() < 0.2 else None,
+            "read_fault": rng.random() if rng.random() < 0.2 else None}
     # hand-made text
     n = rng.randint(1, 8)
     hcell = geom.make_cell(rng, rng.choice(["ortho", "tri_pos", "tri_neg", "tri_mixed"]), rng.uniform(5, 12), [], roomy=(1.0, 1.5))
@@ -366,12 +368,37 @@ def execute(spec, ctx):
     case = spec["case"]
     fract = case["fract"]
     before = replcheck.snapshot(real)
+    if case.get("write_fault") is not None:
+        # fault configuration: the disk fails after k characters; the error must surface and the object stay untouched
+        fh = fs.writer("/sim/faulty.cif", script=case["write_fault"])
+        raised = None
+        try:
+            real.save(fh, filetype="cif", use_fract_coords=fract)
+        except OSError as e:
+            raised = e
+        except Exception as e:
+            raise Violation("c15:write-fault-misreported", "an injected write error surfaced as %s: %s" % (type(e).__name__, e), site="save_p1_cif")
+        fired = fs.stats.get("enospc_fired", 0) + fs.stats.get("eio_fired", 0)
+        if fired:
+            ctx.count("faults_fired")
+            if raised is None:
+                raise Violation("c15:write-error-swallowed", "the disk reported %s during save but the call returned normally" % case["write_fault"], site="save_p1_cif")
+        fs.crash()
+        if replcheck.snapshot(real) != before:
+            raise Violation("c15:save-modified-object", "a failed CIF save changed the in-memory structure", site="save_p1_cif")
     t1, p1 = _save(ctx, fs, real, case["via_save"], "t1", fract)
     if replcheck.snapshot(real) != before:
         raise Violation("c15:save-modified-object", "writing a CIF modified the in-memory structure", site="save_p1_cif")
     prec = _check_text(ctx, t1, m, fract)
     re1 = _load(ctx, fs, p1, case["via_load"], case.get("read_script"))
     _check_reload(ctx, re1, m, fract, "reload of first write, %s coordinates" % ("fractional" if fract else "cartesian"), prec)
+    if case.get("read_fault") is not None:
+        fired0 = fs.stats.get("eio_read_fired", 0)
+        r = _load(ctx, fs, p1, "file", {"eio_at_read": 1 + int(case["read_fault"] * 3), "chunk": "random", "seed": 1}, expect_error=True)
+        if fs.stats.get("eio_read_fired", 0) > fired0:
+            ctx.count("faults_fired")
+            if not isinstance(r, Exception):
+                raise Violation("c15:read-error-swallowed", "the stream reported EIO while the CIF was read but a structure was returned", site="load_p1_cif")
     ctx.count("cif_roundtrips")
     c = np.array(m.cell, float)
     if not np.allclose(c, np.diag(np.diag(c))):
